@@ -101,4 +101,9 @@ UsesSeeTheirValue == st # "stuck" \/ (~Strict /\ Report)
 Overlap(a, b, c, d) == a < d /\ c < b
 SlotsDisjoint == \A c \in SetOf(Funcs[f].cells) : \A u \in SetOf(Funcs[f].ust) : ~Overlap(c[2], c[3], u[1], u[2])
 SlotsInv == SlotsDisjoint \/ (~Strict /\ PrintT(<<"REJECT", Funcs[f].fid, 0, "user stack area overlaps a spill cell">>))
+
+(* register lists the ISA requires to be consecutive (modulo 32) are consecutive in the rewritten instruction;    *)
+(* consec = <<node, <<id1, id2, ...>>>> for every operand group that query_rw_info marks with a consecutive lead  *)
+ConsecutiveOK == \A c \in SetOf(Funcs[f].consec) : \A k \in 1..(Len(c[2]) - 1) : c[2][k + 1] = (c[2][k] + 1) % 32
+ConsecutiveInv == ConsecutiveOK \/ (~Strict /\ PrintT(<<"REJECT", Funcs[f].fid, 0, "register list not consecutive">>))
 =============================================================================
